@@ -29,6 +29,7 @@ import (
 	"context"
 	"fmt"
 	"runtime"
+	"strings"
 	"sync"
 	"sync/atomic"
 	"testing"
@@ -52,9 +53,9 @@ const c09PPName api.ProtocolName = "vboltpp"
 
 type c09PPProto struct{ api.XProtocol }
 
-func (p c09PPProto) Name() api.ProtocolName  { return c09PPName }
-func (p c09PPProto) PoolMode() api.PoolMode  { return api.PingPong }
-func (p c09PPProto) EnableWorkerPool() bool  { return true }
+func (p c09PPProto) Name() api.ProtocolName { return c09PPName }
+func (p c09PPProto) PoolMode() api.PoolMode { return api.PingPong }
+func (p c09PPProto) EnableWorkerPool() bool { return true }
 func (p c09PPProto) Trigger(ctx context.Context, requestId uint64) api.XFrame {
 	return nil // heartbeats disabled: the pool creates no keep-alive for this codec
 }
@@ -99,6 +100,21 @@ func c09Encode(frame interface{}) []byte {
 type c09Common struct{}
 
 func (c09Common) Async() bool { return false }
+
+// SelfDeadlock recognises, from the frames of one blocked goroutine, the chain
+// streamConn.Reset (holds sc.clientMutex.Lock for its whole body) -> xStream.ResetStream ->
+// BaseStream.DestroyStream -> listener.OnDestroyStream -> client.ActiveRequestsNum ->
+// streamConn.ActiveStreamsNum (sc.clientMutex.RLock of the SAME streamConn: the stream's listener
+// is the active client of the connection being reset): the goroutine waits for itself.
+func (c09Common) SelfDeadlock(stack string) string {
+	i := strings.Index(stack, "(*streamConn).ActiveStreamsNum")
+	j := strings.Index(stack, "(*streamConn).Reset(")
+	k := strings.Index(stack, "OnDestroyStream")
+	if i >= 0 && j > i && k > i && k < j {
+		return "I5 self-deadlock: closing a connection whose client is in state GoAway while it carries streams blocks for ever (streamConn.Reset holds clientMutex, OnDestroyStream -> ActiveRequestsNum read-locks it again): the streams are never destroyed"
+	}
+	return ""
+}
 
 func (c09Common) NewCtx() context.Context {
 	return buffer.NewBufferPoolContext(variable.NewVariableContext(context.Background()))
@@ -160,6 +176,7 @@ func (c09PingPong) NewPool(ctx context.Context, host types.Host) types.Connectio
 func (c09PingPong) Prepare(pool types.ConnectionPool, ctx context.Context) (bool, error) {
 	return pool.CheckAndInit(ctx), nil
 }
+func (c09PingPong) Guarded() bool                                                   { return false }
 func (c09PingPong) Quiesce(pool types.ConnectionPool, shutdownRequested bool) error { return nil }
 func (c09PingPong) Books(pool types.ConnectionPool) c09.Books {
 	p := pool.(*poolPingPong)
@@ -183,6 +200,7 @@ type c09Multiplex struct{ c09Common }
 
 func (c09Multiplex) Name() string   { return "xproto-multiplex" }
 func (c09Multiplex) Kind() c09.Kind { return c09.Multiplex }
+func (c09Multiplex) Guarded() bool  { return true }
 func (c09Multiplex) NewPool(ctx context.Context, host types.Host) types.ConnectionPool {
 	c09Init()
 	p := NewConnPool(ctx, c09bolt, host)
@@ -250,7 +268,9 @@ func (c09Multiplex) Quiesce(pool types.ConnectionPool, shutdownRequested bool) e
 
 func (d c09Multiplex) Prepare(pool types.ConnectionPool, ctx context.Context) (bool, error) {
 	p := pool.(*poolMultiplex)
-	for try := 0; try < 3; try++ {
+	// every poll that returns false may have started an init goroutine: wait for it before the
+	// next poll (and before returning), so that exactly one connection attempt is in progress at any time
+	for try := 0; try < 4; try++ {
 		if pool.CheckAndInit(ctx) {
 			return true, nil
 		}
@@ -261,7 +281,7 @@ func (d c09Multiplex) Prepare(pool types.ConnectionPool, ctx context.Context) (b
 			return false, err
 		}
 	}
-	return pool.CheckAndInit(ctx), nil
+	return false, nil
 }
 
 func TestVerifC09Multiplex(t *testing.T) {
